@@ -86,7 +86,12 @@ def bound_names_in_scope(fn):
     walk(fn, 0)
     a = fn.args
     params = {p.arg for p in a.posonlyargs + a.args + a.kwonlyargs + ([a.vararg] if a.vararg else []) + ([a.kwarg] if a.kwarg else [])}
+    fn._scope_sets = (own, nested_bound, blocked)
     return own - params - nested_bound - blocked, params
+
+
+def scope_sets(fn):
+    return fn._scope_sets
 
 
 class Renamer(ast.NodeTransformer):
@@ -114,15 +119,59 @@ def top_functions(tree):
     return out
 
 
+def keyword_names():
+    """every keyword-argument name used in any call under src/ or tests/ (a parameter with such a name is left alone)"""
+    kw = set()
+    for root in (src / "src", src / "tests", src / "integration_tests"):
+        for f in root.rglob("*.py"):
+            try:
+                t = ast.parse(f.read_text())
+            except SyntaxError:
+                continue
+            for n in ast.walk(t):
+                if isinstance(n, ast.keyword) and n.arg:
+                    kw.add(n.arg)
+                elif isinstance(n, ast.Constant) and isinstance(n.value, str) and n.value.isidentifier():
+                    kw.add(n.value)  # names that travel as strings (getattr, **{...}, fixtures)
+    return kw
+
+
+KW = keyword_names() if mode.startswith("params") else set()
+HOOK_PREFIXES = ("visit_", "leave_", "on_visit", "on_leave")
+
+
+def renamable_params(fn, nested_bound_or_blocked):
+    if fn.name.startswith("__") or (mode == "params-nohooks" and fn.name.startswith(HOOK_PREFIXES)):
+        return set()
+    if any(isinstance(d, ast.Name) and d.id in ("property", "fixture") or isinstance(d, ast.Attribute) and d.attr in ("fixture", "setter") for d in fn.decorator_list):
+        return set()
+    a = fn.args
+    ps = [p.arg for p in a.posonlyargs + a.args]
+    return {p for p in ps if p not in ("self", "cls", "mcs") and p not in KW and not p.startswith("_") and p not in nested_bound_or_blocked}
+
+
+class ParamRenamer(ast.NodeTransformer):
+    def __init__(self, names, top):
+        self.names, self.top = names, top
+
+    def visit_Name(self, n):
+        if n.id in self.names:
+            n.id = n.id + "_pv"
+        return n
+
+    def visit_arg(self, n):
+        return n
+
+
 shutil.copytree(src, dst, ignore=shutil.ignore_patterns(".git", "__pycache__", "*.pyc", ".pytest_cache"), symlinks=True)
-n_files = n_fn = n_names = 0
+n_files = n_fn = n_names = n_params = 0
 for f in sorted((dst / "src").rglob("*.py")):
     text = f.read_text()
     try:
         tree = ast.parse(text)
     except SyntaxError:
         continue
-    if mode in ("locals", "params"):
+    if mode in ("locals", "params", "params-nohooks"):
         for fn in top_functions(tree):
             all_names = {n.id for n in ast.walk(fn) if isinstance(n, ast.Name)} | {a.arg for a in ast.walk(fn) if isinstance(a, ast.arg)}
             names, params = bound_names_in_scope(fn)
@@ -132,7 +181,16 @@ for f in sorted((dst / "src").rglob("*.py")):
                 Renamer(names).visit(fn)
                 n_fn += 1
                 n_names += len(names)
+            if mode.startswith("params"):
+                own, nested_bound, blocked = scope_sets(fn)
+                ps = {p for p in renamable_params(fn, nested_bound | blocked) if p + "_pv" not in all_names}
+                if ps:
+                    ParamRenamer(ps, fn).visit(fn)
+                    for a in fn.args.posonlyargs + fn.args.args:
+                        if a.arg in ps:
+                            a.arg = a.arg + "_pv"
+                    n_params += len(ps)
     new = ast.unparse(tree) + "\n"
     f.write_text(new)
     n_files += 1
-print(f"{mode}: {n_files} files rewritten, {n_names} local names renamed in {n_fn} functions")
+print(f"{mode}: {n_files} files rewritten, {n_names} local names renamed in {n_fn} functions, {n_params} parameters renamed")
